@@ -339,6 +339,12 @@ def check_fourway(P, R, tu):
                     R.finding(rule, fn, site + " %s arm" % what, "the %s arm steps `%s` the wrong way" % (what, expr_text(bad[0][1])), bad[0][1])
                     continue
                 above = ABOVE.get(s.field)
+                if above is None and s.field.startswith("local "):
+                    # the field compared is a local the rule cannot name (a weekday worked out by hand, say): what lies above it is
+                    # not looked up; the values are decided by RF2-round
+                    R.notes.append("%s: %s: the compared field is a local computed in place; the arm's step is not compared with the "
+                                   "table of coarser fields (decided by RF2-round)" % (rule, site))
+                    continue
                 if above is None:
                     raise AnalysisBroken("%s: field %s has no entry in the table of next coarser fields" % (rule, s.field))
                 first = sg[0][2]
